@@ -139,6 +139,13 @@ pub fn object_schemas() -> Vec<Value> {
     out.push(json!({"type": "object", "patternProperties": {"^x": {"type": "integer"}}, "properties": {"xa": {"type": "integer", "minimum": 5}}, "additionalProperties": false}));
     out.push(json!({"type": "object", "properties": {"k": {"type": "string", "maxLength": 1}, "n": {"type": "object", "properties": {"z": {"type": "null"}}, "required": ["z"], "additionalProperties": false}}, "required": ["n"], "additionalProperties": false}));
     out.push(json!({"type": "object", "properties": {"a\"b": {"type": "null"}, "é": {"type": "boolean"}}, "additionalProperties": false}));
+    // long names that share a long prefix (anything keyed by a truncated or hashed name confuses them), side by
+    // side and in different nested objects
+    out.push(json!({"type": "object", "properties": {"billing_address_line1": {"type": "integer"}, "billing_address_line2": {"type": "boolean"}}, "required": ["billing_address_line1", "billing_address_line2"], "additionalProperties": false}));
+    out.push(json!({"type": "object", "properties": {"a": {"type": "object", "properties": {"customer_shipping_address_primary": {"type": "null"}}, "required": ["customer_shipping_address_primary"], "additionalProperties": false},
+        "b": {"type": "object", "properties": {"customer_shipping_address_secondary": {"type": "null"}}, "required": ["customer_shipping_address_secondary"], "additionalProperties": false}}, "required": ["a", "b"], "additionalProperties": false}));
+    out.push(json!({"enum": ["the quick brown fox jumps over the lazy dog", "the quick brown fox jumps over the lazy cat", "the quick brown fox"]}));
+    out.push(json!({"type": "array", "prefixItems": [{"const": "0123456789012345678901234567890a"}, {"const": "0123456789012345678901234567890b"}], "items": false, "minItems": 2}));
     out
 }
 
@@ -344,10 +351,44 @@ pub fn ref_chain_schemas() -> Vec<Value> {
     out
 }
 
+/// Unsatisfiable leaves in positions where the surrounding schema stays satisfiable (optional property,
+/// array items, tuple tail, anyOf alternative, additionalProperties) and in a required position (where the
+/// whole schema must be refused): the engine has to prune the leaf, never compile it into a lexeme with an
+/// empty language
+pub fn unsat_leaf_schemas() -> Vec<Value> {
+    let leaves = vec![
+        json!({"allOf": [{"const": "a"}, {"const": "b"}]}),
+        json!({"const": "a", "enum": ["b", "c"]}),
+        json!({"allOf": [{"enum": ["a", "b"]}, {"enum": ["c", "d"]}]}),
+        json!({"type": "string", "enum": ["ab", "cd"], "const": "ef"}),
+        json!({"type": "integer", "minimum": 5, "maximum": 3}),
+        json!({"type": "integer", "minimum": 7, "maximum": 11, "multipleOf": 6}),
+        json!({"type": "string", "minLength": 3, "maxLength": 1}),
+        json!({"allOf": [{"type": "string"}, {"type": "integer"}]}),
+        json!({"const": 1, "type": "string"}),
+        json!({"enum": [1, 2], "minimum": 5}),
+        json!({"type": "string", "const": "b", "pattern": "^a$"}),
+        json!({"type": "array", "items": false, "minItems": 1}),
+        json!(false),
+    ];
+    let mut out = vec![];
+    for u in leaves.iter() {
+        out.push(json!({"type": "object", "properties": {"k": u, "j": {"type": "null"}}, "additionalProperties": false}));
+        out.push(json!({"type": "object", "properties": {"j": {"type": "null"}, "k": u}, "required": ["j"], "additionalProperties": false, "x-guidance": {"whitespace_flexible": false}}));
+        out.push(json!({"type": "array", "items": u}));
+        out.push(json!({"type": "array", "prefixItems": [{"type": "boolean"}, u], "minItems": 1, "x-guidance": {"whitespace_flexible": false}}));
+        out.push(json!({"anyOf": [u, {"type": "null"}]}));
+        out.push(json!({"type": "object", "properties": {"j": {"type": "null"}}, "additionalProperties": u}));
+        out.push(json!({"type": "object", "properties": {"k": u}, "required": ["k"]}));
+    }
+    out
+}
+
 /// all_schemas plus the pairwise intersection family
 pub fn all_schemas_x(small: bool) -> Vec<Value> {
     let mut v = all_schemas(small);
     v.extend(intersection_schemas(small));
     v.extend(ref_chain_schemas());
+    v.extend(unsat_leaf_schemas());
     v
 }
